@@ -133,6 +133,18 @@ def run(chk, prog):
     loop_ids = {y["id"] for y in A.walk(loop)}
     ev = mm.events()
 
+    ob_ids_early = {y["id"] for y in A.walk(mm.output_block()["then"])}
+    fb_ids_early = {y["id"] for x_ in A.walk(mainf["body"]) if x_["k"] == "IfStmt" and x_["line"] > loop["line"] and x_["id"] not in loop_ids and
+                    M.MainModel.null_test(x_["cond"]) == ("hdf_file", True) for y in A.walk(x_["then"])}
+    const_locals = {}
+    for st_ in A.walk(mainf["body"]):
+        if st_.get("k") == "DeclStmt":
+            for dd_ in st_.get("decls", []):
+                # (names introduced inside one of the two blocks: a value computed before them is the same object in both)
+                if dd_.get("k") == "VarDecl" and dd_.get("is_const") and isinstance(dd_.get("init"), dict) and \
+                        (st_["id"] in ob_ids_early or st_["id"] in fb_ids_early):
+                    const_locals[dd_["decl"]] = A.strip(dd_["init"])
+
     def block_calls(pred):
         out = []
         for bid, i, n, e in sorted(ev, key=lambda t: t[2]["id"]):
@@ -140,6 +152,10 @@ def run(chk, prog):
                 if e["var"] in ("hdf_file", "grid_t1", "rdtn_field", "drfm") and e["method"] not in ("getPastModulation",):
                     args = []
                     for a_ in n.get("args", []):
+                        # a const local of main that merely names the argument (const auto t = double(step)/steps) stands for its initialiser
+                        d_ = A.declref(a_)
+                        if d_ is not None and d_.get("local") and d_.get("decl") in const_locals:
+                            a_ = const_locals[d_["decl"]]
                         t = A.show(a_).replace(" ", "")
                         # one spelling for the same object expression: (*p).f() is p->f(), (*p) is *p
                         t = re.sub(r"\(\*(\w+)\)\.", r"\1->", t)
